@@ -813,7 +813,9 @@ def rule_silent(c: Ctx) -> RuleResult:
                         if all(g.name in ("skipToken",) for g in cs.callees) or all(g.name == "parseLinkLabel" for g in cs.callees):
                             continue          # validation-mode scanners: they dispatch with silent=True and touch level in a paired way
                         # a private helper that is handed the state and the silent flag: it is held to the same rule itself
-                        if len(cs.callees) == 1 and cs.kind in ("direct", "method") and cs.callees[0].module is f.module:
+                        if len(cs.callees) == 1 and cs.kind in ("direct", "method") and (
+                                cs.callees[0].module is f.module or (cs.kind == "direct" and cs.callees[0].module.rel.rsplit("/", 1)[0] == f.module.rel.rsplit("/", 1)[0]
+                                                                     and cs.callees[0] not in {reg_.func for ch_ in c.reg.rules.values() for reg_ in ch_})):
                             g = cs.callees[0]
                             gp = [a.arg for a in g.node.args.posonlyargs + g.node.args.args]
                             p_st = next((pn for pn in gp if (a_ := c.eff.arg_for_param(cs, g, pn)) is not None and U(a_) == st), None)
